@@ -26,6 +26,31 @@ import ctok
 
 LEAN_MODULE = "PydjinniModel.Props.C02"
 THEOREMS = [
+    "Pydjinni.Gen.splitU_flatten",
+    "Pydjinni.Gen.convert_preserves_letters",
+    "Pydjinni.Gen.convert_style",
+    "Pydjinni.Gen.convert_spec",
+    "Pydjinni.Gen.cpp_typeSpec_homomorphic",
+    "Pydjinni.Gen.cppCore_eq_ref",
+    "Pydjinni.Gen.cppSpec_eq_ref",
+    "Pydjinni.Gen.cpp_optional_interface",
+    "Pydjinni.Gen.cpp_optional_function",
+    "Pydjinni.Gen.cpp_not_null_wraps",
+    "Pydjinni.Gen.cpp_param_constref_iff",
+    "Pydjinni.Gen.java_typeSpec_homomorphic",
+    "Pydjinni.Gen.java_optional_is_boxed",
+    "Pydjinni.Gen.java_async_boxed",
+    "Pydjinni.Gen.printT_plainJ",
+    "Pydjinni.Gen.javaDataType_eq_ref_partial",
+    "Pydjinni.Gen.cli_typeSpec_homomorphic",
+    "Pydjinni.Gen.cli_nullable_iff",
+    "Pydjinni.Gen.cliTypename_eq_ref",
+    "Pydjinni.Gen.objc_typeSpec_homomorphic",
+    "Pydjinni.Gen.objc_interface_parameter",
+    "Pydjinni.Gen.objcTypeDecl_eq_ref",
+    "Pydjinni.Gen.cpp_api_fidelity",
+    "Pydjinni.Gen.cpp_api_members_in_order",
+    "Pydjinni.Gen.cpp_api_methods_in_order",
 ]
 LEVEL = "proof"
 TRUSTED = (
